@@ -12,7 +12,7 @@ mod surface;
 pub fn spec() -> PropSpec {
     PropSpec {
         id: "C03",
-        rule: "cases: operand pairs built from edge shapes (constants, 2^k±1, patterned limbs 0/MAX/…, runs of ones, random bit length, uniform, zero-padded), related operands, and a recursive Karatsuba-half construction (halves equal / ±1 / zero / ordered oppositely at every split level); every multiplication / squaring form of the width is checked on each pair against the BigUint product. non-trivial: both operands have >= 2 significant bits and the exact product needs more than one limb; distinct by the operand limbs (+ widths).",
+        rule: "cases: operand pairs built from edge shapes (constants, 2^k±1, patterned limbs 0/MAX/…, runs of ones, random bit length, uniform, zero-padded), related operands, and a recursive Karatsuba-half construction (halves equal / ±1 / zero / ordered oppositely at every split level); every multiplication / squaring form of the width is checked on each pair against the BigUint product. non-trivial: both operands have >= 2 significant bits and the exact product needs more than one limb; distinct by the operand limbs (+ widths). surface/* (API-surface audit, /verif/audit/B.md): the same generators and rule at further widths (13, 15, 17, 24, 33 limbs, more mixed and Concat widths) and through further routes (generic functions, by-reference wrapper forms, Checked operands that are none or were built through From<CtOption> / constant-time selection / a bincode round trip; limb pairs also as (a, floor(MAX/a) + {-1,0,1})); pow route (num_traits::pow): exponent 0..7, base arbitrary / of about BITS/e bits (powers on both sides of 2^BITS) / below 4, non-trivial when the base has >= 2 bits, the exponent is >= 2 and the power needs more than one limb.",
         assumptions: vec![
             "num-bigint multiplication is correct (independent implementation)".into(),
             "bridging uses from_words/to_words only".into(),
